@@ -93,10 +93,15 @@ def case_fronts_1d(ctx, n, binary):
     step = 1 if binary else ctx.int("step", 1, 1 << 15)
     x = arrays.mk(xs, tag=np.dtype(np.int16))
     ind, sign = u.fronts(x, step=step)
-    _edges_oracle(ctx, xs, n, step, "fronts", list(ind), list(sign))
+    if np.ndim(ind) == 1 and np.ndim(sign) == 1:
+        _edges_oracle(ctx, xs, n, step, "fronts", list(ind), list(sign))
     r = u.rises(arrays.mk(xs, tag=np.dtype(np.int16)), step=step)
-    _edges_oracle(ctx, xs, n, step, "rises", list(r), polarity=1)
     f = u.falls(arrays.mk(xs, tag=np.dtype(np.int16)), step=-step)
+    # a 1-D trace gives a 1-D array of sample indices, however many events there are (none, one, several)
+    if not ctx.oblige("rises_and_falls_of_a_1d_trace_are_1d_index_arrays", np.ndim(r) == 1 and np.ndim(f) == 1 and np.ndim(ind) == 1 and np.ndim(sign) == 1,
+                      detail={"rises_shape": str(np.shape(r)), "falls_shape": str(np.shape(f)), "fronts_shape": str(np.shape(ind))}):
+        return
+    _edges_oracle(ctx, xs, n, step, "rises", list(r), polarity=1)
     _edges_oracle(ctx, xs, n, step, "falls", list(f), polarity=-1)
 
 
@@ -120,6 +125,9 @@ def case_fronts_2d(ctx, rows, cols, axis):
             else:
                 ctx.oblige("fronts2d_every_edge_is_returned", not_(is_edge), detail={"i": i, "j": j})
     r = u.rises(arrays.mk([e for rr in xs for e in rr], shape=(rows, cols), tag=np.dtype(np.int8)), axis=axis)
+    # a 2-D array gives one row of indices per dimension, however many events there are
+    if not ctx.oblige("rises_of_a_2d_array_are_a_2_by_k_index_array", np.ndim(r) == 2 and np.shape(r)[0] == 2, detail={"shape": str(np.shape(r))}):
+        return
     gr = {(int(a), int(b)) for a, b in zip(r[0], r[1])}
     for i in range(rows):
         for j in range(cols):
@@ -136,10 +144,21 @@ def case_rises_analog(ctx, n):
     xs = [ctx.real(f"v{i}", -10, 10) for i in range(n)]
     thr = ctx.real("threshold", -5, 5)
     r = u.rises(arrays.mk(xs, tag=np.dtype(float)), step=thr, analog=True)
+    if not ctx.oblige("analog_rises_are_a_1d_index_array", np.ndim(r) == 1, detail={"shape": str(np.shape(r))}):
+        return
     got = set(int(i) for i in r)
     for i in range(1, n):
         crossing = and_(xs[i] > thr, not_(xs[i - 1] > thr))
         ctx.oblige("analog_rise_iff_upward_threshold_crossing", crossing if i in got else not_(crossing), detail={"i": i})
+    # falling fronts are the rising fronts of the negated trace (documented mirror: falls(x, step) = rises(-x, -step)): a fall at i
+    # when the trace gets below the threshold there, samples EQUAL to the threshold counting as not below
+    fl = u.falls(arrays.mk(xs, tag=np.dtype(float)), step=thr, analog=True)
+    if not ctx.oblige("analog_falls_are_a_1d_index_array", np.ndim(fl) == 1, detail={"shape": str(np.shape(fl))}):
+        return
+    gotf = set(int(i) for i in fl)
+    for i in range(1, n):
+        crossing = and_(xs[i] < thr, not_(xs[i - 1] < thr))
+        ctx.oblige("analog_fall_is_the_rise_of_the_negated_trace", crossing if i in gotf else not_(crossing), detail={"i": i})
 
 
 def cases(tier):
@@ -237,6 +256,11 @@ b = x > thr
 exp = np.where(b[1:] & ~b[:-1])[0] + 1
 print(x, thr, r, exp)
 if not np.array_equal(r, exp): reproduced('analog rises differ from upward threshold crossings')
+fl = u.falls(x, step=thr, analog=True)
+bf = x < thr
+expf = np.where(bf[1:] & ~bf[:-1])[0] + 1
+print(fl, expf)
+if not np.array_equal(fl, expf): reproduced(f'analog falls {{np.asarray(fl).tolist()}} differ from the rises of the negated trace {{expf.tolist()}} (samples equal to the threshold)')
 not_reproduced()
 """
     return None
